@@ -301,3 +301,4 @@ def run(ctx):
     _run_rules(ctx)
     from .. import boundaries
     boundaries.check(ctx, 'C04.RB', 'C04')
+    boundaries.check_calls(ctx, 'C04.RC', 'C04')
